@@ -20,7 +20,7 @@ to). Every theorem quantifies over EVERY schedule.
   (e) `async_quiescence`                from any state some schedule of handler steps empties all queues, and EVERY
       schedule of enabled handler steps is shorter than the measure (acyclic edges).
   `nonatomic_collect_breaks_prev_chain`: with the two halves of `Topic.collect` as separate steps (the code before
-  /repo 1a56c16) a recorder can see an event whose previous level is not the level of the event it saw before.
+  /repo 800c4eb) a recorder can see an event whose previous level is not the level of the event it saw before.
 -/
 import Kap.Proofs.C09AsyncCons
 import Kap.Proofs.C09AsyncFifo
@@ -162,7 +162,7 @@ theorem async_recorders_see_one_order (sched : List Step) (r1 r2 : Key)
     (∃ pre, (execAll sched {}).got r2 = pre ++ (execAll sched {}).got r1) :=
   Prev.recorders_same_order sched r1 r2 h1 h2 ht q1 q2
 
-/-- **The defect repaired by /repo 1a56c16.** If the two halves of `Topic.collect` are separate steps (store the
+/-- **The defect repaired by /repo 800c4eb.** If the two halves of `Topic.collect` are separate steps (store the
 state / queue the event on the handlers, as the code locked them before), two concurrent collects on one topic can
 reach a recorder in the opposite order of their state updates: the recorder then holds a sequence that is NOT
 locally consistent — the second event it sees carries a previous level that is not the level of the first. -/
